@@ -18,7 +18,7 @@ KTOL = 1e-11      # vm_compute structure checks (column sums, dot products, scal
 BANDS = [5, 20, 40, 100]
 
 RULE = ('interval goals: one per (case, target) for calc_smooth_fa_spectrum (explicit and default targets, with/without the zero bin, real and complex spectra), '
-        'Signal/AccSignal.smooth_fa_spectrum (targets set through the constructor, both setters, set_smooth_fa_frequecies_by_range and gen_smooth_fa_spectrum(band=..)) and entries of '
+        'Signal/AccSignal.smooth_fa_spectrum (targets set through the constructor, both setters, set_smooth_fa_frequecies_by_range and gen_smooth_fa_spectrum(band=..); after a by-range call the targets the object holds are also checked inside Coq to be the geometric grid between the limits: K_C07 kind 6) and entries of '
         'calc_smoothing_matrix_konno_1998; 4-31 non-zero Fourier frequencies (uniform FFT grids and irregular ascending ones), 1-12 targets inside / outside / exactly on the grid, '
         'band in {5,20,40,100} and non-integer bands in [5,100]; tolerance 1e-10 x max|amplitude| (1e-10 absolute for matrix entries). '
         'vm_compute cases on implementation outputs: weights in [0,1], column sums 1, matrix form = direct form = Q dot product, min <= smoothed <= max, |alpha| scaling, constant reproduced (1e-11 relative); '
@@ -234,6 +234,11 @@ def regen_c07():
         py2coq_c07.regenerate(repo=core.REPO)
     except Exception as e:
         return 'py2coq_c07: %s: %s' % (type(e).__name__, e)
+    try:  # the object layer (Signal.gen_smooth_fa_spectrum, the lazy getter, the frequency setters) -> coq/gen/Gen_c07_obj.v
+        import py2coq_objlayer
+        py2coq_objlayer.regenerate_c07(repo=core.REPO)
+    except Exception as e:
+        return 'py2coq_objlayer(C07): %s: %s' % (type(e).__name__, e)
     return None
 
 
@@ -290,6 +295,7 @@ def run(rep, rng, tier):
             ks = sorted(set(ks[:-1] + [rng.choice(on)])) if len(ks) > 1 else [rng.choice(on)]
         S.add_smooth(site, b, F, mod(A), tg_model, r, ks, args, 'direct/%s%s' % (gk, '/default' if default else ''))
 
+    grids = []
     # ---- (I) interval goals: Signal.smooth_fa_spectrum
     for c in range(n_sig):
         npts = rng.choice([9, 12, 16, 20, 31, 32, 40, 60])
@@ -300,6 +306,8 @@ def run(rep, rng, tier):
         site = 'Signal.smooth_fa_spectrum[%s]' % how
         args = {'values': list(map(float, vals)), 'dt': dt, 'how': how, 'class': cls.__name__}
         b = 40
+
+        grid = []          # (limits, n_points) when the targets were set by range: checked as a geometric grid (kind 6)
 
         def build():
             nonlocal b
@@ -318,9 +326,12 @@ def run(rep, rng, tier):
             elif how == 'by_range':
                 s = cls(vals.copy(), dt)
                 lim = (float(F[1]) * rng.uniform(0.5, 1.5), float(F[-1]) * rng.uniform(0.5, 1.5))
-                s.set_smooth_fa_frequecies_by_range(lim, rng.randint(2, 9))
+                npnt = rng.randint(2, 9)
+                s.set_smooth_fa_frequecies_by_range(lim, npnt)
+                grid.append((lim, npnt))
             elif how == 'ctor_range':
                 s = cls(vals.copy(), dt, smooth_freq_range=(float(F[1]), float(F[-1])))
+                grid.append(((float(F[1]), float(F[-1])), 50))
             elif how.startswith('read_then'):
                 # smooth once on one target grid, then change the targets (same number of points, same band) through
                 # each public path, then read again: the spectrum must be the one of the NEW targets
@@ -332,6 +343,7 @@ def run(rep, rng, tier):
                 if how == 'read_then_by_range':
                     lim = (float(F[1]) * rng.uniform(0.5, 1.5), float(F[-1]) * rng.uniform(0.5, 1.5))
                     s.set_smooth_fa_frequecies_by_range(lim, k)
+                    grid.append((lim, k))
                 else:
                     TG2 = make_targets(rng, F, nmax=8)
                     while len(TG2) != k:
@@ -362,6 +374,8 @@ def run(rep, rng, tier):
             continue
         ks = pick(rng, len(TG), per_case)
         S.add_smooth(site, b, F, mod(A), list(TG), out, ks, args, 'signal/%s' % how)
+        if grid:
+            grids.append((site + '[targets]', dict(args, limits=list(grid[-1][0]), n_points=grid[-1][1]), list(map(float, TG)), grid[-1]))
 
     # ---- (I) interval goals: smoothing-matrix entries
     for c in range(n_mat):
@@ -395,6 +409,9 @@ def run(rep, rng, tier):
                'c_ratio := %s; c_s := %s; c_f := %s; c_has := %s; c_lo := %s; c_hi := %s; c_lo1 := %s; c_hi1 := %s |}'
                % (kind, q(tol), qlist(a), q(al), qmat(cols), qlist(d), qlist(d2), qlist(m), q(ratio), qlist(s), qlist(f), cbool(has), q(lo), q(hi), q(lo1), q(hi1)))
         kc.append(Case(coq, {'function': site, 'args': args, 'impl': impl}, site, nontrivial=nontriv, klass=klass))
+
+    for site, gargs, tg, (lim, npnt) in grids:
+        kcase(6, site, gargs, tg, npnt >= 3, 'signal/by_range_targets', al=npnt, d=tg, lo=lim[0], hi=lim[1], tol=1e-9)
 
     for c in range(n_struct):
         kind = rng.choice([0, 0, 5, 1, 2])
